@@ -1,6 +1,36 @@
-From LD Require Import Base F32 Data Model Ops Bucket Eval EvalFacts.
-(* first obligation; the full statements of DESIGN.md section 6 are added as they are proved *)
-Theorem C14_invalid_ctx_untouched : forall re_ok re_match o E P f,
-  run re_ok re_match o E P CInvalid f = Done (mkoutcome (err_detail KUserNotSpecified) false []).
-Proof. exact run_invalid. Qed.
-Print Assumptions C14_invalid_ctx_untouched.
+(* C14 Preprocessing is a transparent optimisation *)
+From LD Require Import Base F32 Data Model Ops Bucket Eval EvalFacts Codec Targets Prep.
+
+Theorem C14_clause : forall re_ok re_match cl x, plain_clause cl ->
+  clause_match_noseg re_ok re_match (preprocess_clause re_ok cl) x = clause_match_noseg re_ok re_match cl x.
+Proof. exact clause_match_pre. Qed.
+Print Assumptions C14_clause.
+
+Theorem C14_equality_set : forall re_ok cl v, plain_clause cl ->
+  clause_find_value (preprocess_clause re_ok cl) v = clause_find_value cl v.
+Proof. exact find_value_pre. Qed.
+Print Assumptions C14_equality_set.
+
+Theorem C14_regex_operand : forall re_ok cl i, plain_clause cl -> cl_op cl = op_matches ->
+  clause_regex re_ok (preprocess_clause re_ok cl) i = clause_regex re_ok cl i.
+Proof. exact regex_pre. Qed.
+Print Assumptions C14_regex_operand.
+
+Theorem C14_timestamp_operand : forall re_ok cl i, plain_clause cl -> (cl_op cl = op_before \/ cl_op cl = op_after) ->
+  clause_time (preprocess_clause re_ok cl) i = clause_time cl i.
+Proof. exact time_pre. Qed.
+Print Assumptions C14_timestamp_operand.
+
+Theorem C14_semver_operand : forall re_ok cl i, plain_clause cl ->
+  (cl_op cl = op_sv_eq \/ cl_op cl = op_sv_lt \/ cl_op cl = op_sv_gt) ->
+  clause_semver (preprocess_clause re_ok cl) i = clause_semver cl i.
+Proof. exact semver_pre. Qed.
+Print Assumptions C14_semver_operand.
+
+Theorem C14_key_sets : forall k vs, find_key k vs (string_set vs) = find_key k vs None.
+Proof. exact key_sets_transparent. Qed.
+Print Assumptions C14_key_sets.
+
+Theorem C14_target : forall c t, t_pre t = None -> target_match c (pp_target t) = target_match c t.
+Proof. exact target_match_pre. Qed.
+Print Assumptions C14_target.
